@@ -12,3 +12,17 @@ open XsVerif.Props.C12
 #print axioms resolve_remote_only_remote
 #print axioms resolve_local_only_files
 #print axioms selfbase_counterexample
+#print axioms unquote_quote
+#print axioms normpath_idempotent
+#print axioms normpath_no_dot_segments
+#print axioms normalizeUrl_idempotent
+#print axioms every_fetch_checked
+#print axioms trace_none_opens_nothing
+#print axioms trace_remote_only_remote
+#print axioms trace_local_only_files
+#print axioms trace_sandbox_confined
+#print axioms root_sandbox_confined
+#print axioms denied_content_unreached
+#print axioms scheme_prefixed_class
+#print axioms remote_render_counterexample
+#print axioms remote_render_partial
